@@ -29,7 +29,8 @@ LEVEL = 'exploration'
 EXHAUSTIVE = {'quick': False, 'thorough': False}
 RULE = ('case = one sampling session = (workers 2..8, group assignment with 1..4 '
         'groups incl. co-workers or one group per worker, N=4..20, algorithm in '
-        '{Random, Sweeping, regularized evolution(population 3)}, per-worker plan '
+        '{Random, Sweeping, regularized evolution(population 3), the same evolution '
+        'started after the first feedback}, per-worker plan '
         'of done / multi-measurement done / feedback(reward) / skip / early-stop '
         'probe, optional end_loop, early-stopping policy or none, start mode '
         'simultaneous|staggered, schedule seed with switch probability and PCT '
@@ -134,7 +135,16 @@ def make_algorithm(kind, seed):
   if kind == 'sweeping':
     return pg.geno.Sweeping()
   if kind == 'evolution':
-    return evo.regularized_evolution(population_size=3, tournament_size=2, seed=seed)
+    return evo.regularized_evolution(evo.mutators.Uniform(seed=seed), population_size=3,
+                                     tournament_size=2, seed=seed)
+  if kind == 'evolution-init1':
+    # Same operators, but evolution starts with the very first feedback: a
+    # proposal that sees "population initialized" must also see that member.
+    return evo.Evolution(
+        evo.selectors.Random(2, seed=seed) >> evo.selectors.Top(1)
+        >> evo.mutators.Uniform(seed=seed),
+        population_init=(pg.geno.Random(seed=seed), 1),
+        population_update=evo.selectors.Last(3))
   raise ValueError(kind)
 
 
@@ -168,7 +178,7 @@ def gen_config(rng, mode):
     end_loop = (rng.randrange(w), rng.randint(1, max(1, n // 2)))   # worker, after its k-th trial
   return dict(
       workers=w, groups=groups, n=n, plans=plans, end_loop=end_loop,
-      algorithm=rng.choice(['random', 'sweeping', 'evolution', 'evolution']),
+      algorithm=rng.choice(['random', 'sweeping', 'evolution', 'evolution', 'evolution-init1']),
       algo_seed=rng.randint(0, 99),
       policy=rng.choice([None, None, 3.0, 6.0]),
       space_form=rng.choice(['hyper', 'spec']),
@@ -222,7 +232,7 @@ class Session:
     plan = cfg['plans'][i]
     stamp = sc.stamp
 
-    def client_call(op, pid, fn):
+    def client_call(op, pid, fn, label=None):
       """Brackets one client call; returns None or the exception."""
       log.append((stamp(), 'call', op, pid))
       try:
@@ -232,19 +242,22 @@ class Session:
         return e
       except Exception as e:  # pylint: disable=broad-except
         log.append((stamp(), 'ret', op, pid, 'raise', type(e).__name__,
-                    traceback.format_exc()[-1500:]))
+                    traceback.format_exc()[-6000:], label or op))
         return e
       log.append((stamp(), 'ret', op, pid, 'ok', r))
       return None
 
     def act(action, fb, pid, reward):
       if action == 'call':
-        client_call('done', pid, lambda: _ignore_race(fb, lambda: fb(reward)))
+        # feedback(reward) = add_measurement + done
+        client_call('done', pid, lambda: _ignore_race(fb, lambda: fb(reward)),
+                    'add_measurement')
         return
       if action == 'skip':
         client_call('skip', pid, fb.skip)
         return
-      if client_call('measure', pid, lambda: fb.add_measurement(reward, step=1)):
+      if client_call('measure', pid, lambda: fb.add_measurement(reward, step=1),
+                     'add_measurement'):
         return
       if action == 'early':
         log.append((stamp(), 'call', 'probe', pid))
@@ -252,14 +265,15 @@ class Session:
           stop = fb.should_stop_early()
         except Exception as e:  # pylint: disable=broad-except
           log.append((stamp(), 'ret', 'probe', pid, 'raise', type(e).__name__,
-                      traceback.format_exc()[-1500:]))
+                      traceback.format_exc()[-6000:], 'should_stop_early'))
           return
         log.append((stamp(), 'ret', 'probe', pid, 'ok', stop))
         if stop:
           client_call('skip', pid, fb.skip)
           return
       if action in ('done2', 'early'):
-        if client_call('measure', pid, lambda: fb.add_measurement(reward, step=2)):
+        if client_call('measure', pid, lambda: fb.add_measurement(reward, step=2),
+                       'add_measurement'):
           return
       client_call('done', pid, fb.done)
 
@@ -326,22 +340,39 @@ def check_session(sess, counters):
   gens = sorted(sess.recorder.events)
   c['generator_events_checked'] += len(gens)
 
-  # -- worker exceptions ----------------------------------------------------------
+  # -- exceptions escaping the library into a worker ---------------------------------
   died = False
+  finish_calls = collections.defaultdict(list)     # pid -> [(call stamp, worker)]
+  for e in events:
+    if e[2] == 'call' and e[3] in ('done', 'skip'):
+      finish_calls[e[4]].append((e[0], e[1]))
+  exceptions = []                                   # (mechanism, detail), emitted below
   for i, err in enumerate(sess.run.errors):
     if err is not None:
       died = True
-      bad('worker-exception', 'outside-client-call' + _at(start),
-          f'worker {i}: {sess.run.tracebacks[i]}')
+      exceptions.append(('outside-client-call', f'worker {i}: {sess.run.tracebacks[i]}'))
+  first_next_raised = False
   for e in events:
     if e[2] == 'next-raise':
       died = True
-      mech = ('first-next' if e[3] == 0 else 'next') + _at(start)
-      bad('worker-exception', mech, f'worker {e[1]} next() #{e[3]} raised {e[4]}:\n{e[5]}')
+      first_next_raised = first_next_raised or e[3] == 0
+      exceptions.append(('first-next' if e[3] == 0 else 'next',
+                         f'worker {e[1]} next() #{e[3]} raised {e[4]}:\n{e[5]}'))
     elif e[2] == 'ret' and e[5] == 'raise':
       died = True
-      bad('worker-exception', e[3] + _at(start),
-          f'worker {e[1]} {e[3]}() on proposal {e[4]} raised {e[6]}:\n{e[7]}')
+      # harness fact: a co-worker had begun to finish the same trial before
+      # this call returned
+      co = any(st < e[0] and w != e[1] for st, w in finish_calls.get(e[4], []))
+      exceptions.append((e[8] + ('@same-group-finish' if co else ''),
+                         f'worker {e[1]} {e[3]}() on proposal {e[4]} raised {e[6]}:\n{e[7]}'))
+
+  def emit_exceptions(construction_raced):
+    # In a session in which the harness itself saw the construction race of
+    # simultaneous first callers (its generator was set up more than once, a
+    # first next() failed, or workers got trials of a private study) every
+    # later exception is a consequence of it: one key.
+    for mech, detail in exceptions:
+      bad('unexpected-exception', 'construction-race' if construction_raced else mech, detail)
 
   # -- what the clients saw ----------------------------------------------------------
   got = collections.defaultdict(list)        # pid -> [(stamp, worker, tid, nums)]
@@ -380,7 +411,10 @@ def check_session(sess, counters):
     result = pg.poll_result(sess.name)
   except ValueError:
     result = None
+  setup_raced = start == 'simultaneous' and (
+      sess.recorder.setups != 1 or first_next_raised)
   if result is None:
+    emit_exceptions(setup_raced)
     if not died:
       bad('no-result', 'poll_result' + _at(start), f'pg.poll_result({sess.name!r}) raised')
     return out, {}
@@ -392,6 +426,7 @@ def check_session(sess, counters):
   # -- private studies (construction race) -----------------------------------------
   c['check:private-study'] += 1
   foreign = sorted(p for p in got if p not in by_pid)
+  emit_exceptions(setup_raced or (start == 'simultaneous' and bool(foreign)))
   if foreign:
     seen_ids = sorted((g[2], p) for p in foreign for g in got[p])
     mech = 'get-or-create' if start == 'simultaneous' else 'after-start'
@@ -581,10 +616,21 @@ def check_session(sess, counters):
       early, late = root
       created, creator = proposals[late[3]][0], proposals[late[3]][4]
       began = max([st for st in next_calls.get(creator, []) if st < created], default=0)
-      # Had a co-worker already been handed the earlier trial (still pending
-      # when the later one was created) before the creator even asked?
-      sequential = any(h[3] == early[3] and h[2] != creator and h[0] < began and h[1] > created
-                       for h in hs)
+      # "concurrent": two trials of this group were created by next() calls of
+      # different workers that overlapped in time (not later than this split);
+      # the group's latest trial is then no longer the one every member holds.
+      # "sequential": no such overlap - the pending trial was simply not reused.
+      spans = {}
+      for h in hs:
+        q = h[3]
+        cw = proposals[q][4]
+        if q not in spans and proposals[q][0] <= created:
+          b0 = max([st for st in next_calls.get(cw, []) if st < proposals[q][0]], default=0)
+          e0 = min([x[0] for x in got[q] if x[1] == cw], default=proposals[q][0])
+          spans[q] = (b0, e0, cw)
+      sequential = not any(
+          u[2] != v[2] and u[0] < v[1] and v[0] < u[1]
+          for u, v in itertools.combinations(spans.values(), 2))
       bad('group-split', 'sequential-next' if sequential else 'concurrent-next',
           f'group {g}: worker {early[2]} held pending trial {by_pid[early[3]][0].id} during '
           f'stamps [{early[0]}, {early[1]}) and worker {late[2]} held the different pending '
@@ -689,11 +735,101 @@ def teardown(ctx):
         f'{ctx.notes.get("inconclusive_sessions")}')
 
 
+def minimal_repro(which, seeds=range(200)):
+  """Bare-API reproductions (no recording wrapper) of the findings seen on /repo.
+
+  which: private | setup | double | doneskip | split | racemsg.  Returns
+  [(seed, text)].  `racemsg` needs switches inside pyglove/core/symbolic/dict.py
+  (outside the C16 target files; the free-running sessions reach it).
+  """
+  targets = TARGETS
+  space = pg.Dict(a=pg.oneof([1, 2, 3, 4]), b=pg.oneof([1, 2, 3]))
+  hits = []
+  for seed in seeds:
+    name = f'c16-repro-{which}-{seed}'
+    algo = (evo.regularized_evolution(evo.mutators.Uniform(seed=1), population_size=3,
+                                      tournament_size=2, seed=1)
+            if which in ('setup', 'racemsg') else pg.geno.Random(seed=1))
+    handed, errs, snap, cur = [], [], [], {}
+    if which in ('private', 'setup'):
+      # two simultaneous first callers of a named study, N=4
+      sc = S.Scheduler(seed, targets=targets, p_switch=0.3 if which == 'setup' else 0.1)
+
+      def w():
+        try:
+          for _, fb in pg.sample(space, algo, num_examples=4, name=name):
+            handed.append(fb.id)
+            fb(1.0)
+        except Exception as e:  # pylint: disable=broad-except
+          errs.append(repr(e))
+
+      sc.run([w, w])
+      ids = [t.id for t in pg.poll_result(name).trials]
+      if which == 'private' and len(handed) > 4:
+        hits.append((seed, f'num_examples=4 but trial ids handed out: {sorted(handed)}; '
+                     f'pg.poll_result ids: {ids}'))
+      if which == 'setup' and errs:
+        hits.append((seed, f'worker raised {errs}'))
+    else:
+      # two co-workers (group "g"); worker 0 holds its first trial before worker 1 starts
+      sc = S.Scheduler(seed, targets=targets, p_switch=0.1, solo_first=True)
+      if which == 'racemsg':
+        sc = S.Scheduler(seed, targets=targets + ['pyglove/core/symbolic/dict.py'],
+                         p_switch=0.01, change_points=3, horizon=6000, solo_first=True)
+
+      def mk(i):
+        def w():
+          try:
+            body(i)
+          except Exception as e:  # pylint: disable=broad-except
+            errs.append(repr(e))
+
+        def body(i):
+          for _, fb in pg.sample(space, algo, num_examples={'split': 4, 'racemsg': 3}.get(which, 2),
+                                 name=name, group='g'):
+            sc.enable_switching()
+            if which == 'split':
+              cur[i] = fb
+              o = cur.get(1 - i)
+              if (o is not None and o.id != fb.id and o.get_trial().status == 'PENDING'
+                  and fb.get_trial().status == 'PENDING'):
+                snap.append((i, fb.id, 1 - i, o.id))
+            with fb.ignore_race_condition():
+              if which == 'doneskip' and i == 1:
+                fb.skip()
+              else:
+                fb(1.0)
+        return w
+
+      sc.run([mk(0), mk(1)])
+      r = pg.poll_result(name)
+      feas = sum(not t.infeasible for t in r.trials)
+      if which == 'racemsg':
+        if errs:
+          hits.append((seed, f'worker raised {errs}'))
+      elif which == 'split':
+        if snap:
+          hits.append((seed, f'(worker, its PENDING trial, co-worker, its PENDING trial): {snap}'))
+      elif algo.num_feedbacks != feas:
+        hits.append((seed, f'{feas} feasible trials but algorithm.num_feedbacks='
+                     f'{algo.num_feedbacks}; summary {r.format(compact=True)}'))
+  return hits
+
+
 def main(argv):
   """Re-runs one case and prints what the checker saw.
 
   /venv/bin/python -m pgverif.props.c16 <tier> <seed> <shard> <index> [-v]
+  /venv/bin/python -m pgverif.props.c16 repro private|setup|double|doneskip|split|racemsg [first_seed [n]]
   """
+  if argv and argv[0] == 'repro':
+    first = int(argv[2]) if len(argv) > 2 else 0
+    n = int(argv[3]) if len(argv) > 3 else 200
+    hits = minimal_repro(argv[1], range(first, first + n))
+    print(f'{argv[1]}: {len(hits)} of {n} schedule seeds from {first} show it')
+    for seed, text in hits[:3]:
+      print(f'  schedule seed {seed}: {text}')
+    return
   tier, seed, shard, index = argv[0], int(argv[1]), int(argv[2]), int(argv[3])
   verbose = '-v' in argv
   p = TIERS[tier]
